@@ -449,6 +449,9 @@ def _job_worker(idx):
                 summary['batches'].append(dict(path=pid, kind='witness' if wit else 'prop', file=f, logic=logic, ndefs=nd, hinted=hinted,
                                                hint_env=hints[key[1]][1] if hinted else None, cap=(15 if hinted else None),
                                                goals=[dict(tag=ob['tag'], k=ob['k'], kind=ob['kind'], extra=ob.get('extra')) for ob, g in chunk]))
+        if getattr(m, 'omp', None) is not None and m.omp.mode == 'race' and pr.outcome not in ('engine-error', 'infeasible'):
+            from . import omp as _omp
+            summary.setdefault('omp_paths', []).append(_omp.serialise_path(m, pid))
         summary['nterms'] = max(summary['nterms'], Term._n)
         if len(summary['paths']) >= max_paths:
             summary['errors'].append(dict(path=-1, error=f'path budget {max_paths} exhausted with {len(worklist)} prefixes pending'))
